@@ -77,6 +77,21 @@ CHECKS.update({
          "Trusts: message pattern of the not-allowed class.",
          "DESIGN.md 5/C19"),
 })
+
+CHECKS.update({
+ "C01": ("TLC: NoPanic / bounded-stack / termination invariants of Scanner.tla, Macro.tla (all PASTE graphs incl. cycles) and Inc.tla (all include graphs); every model tape, macro graph and include graph through the real build in crash-isolated workers; seeded fuzz stream in isolated workers",
+         "The partial functions of the code (empty step / event stack, nil pending directive, unbounded PASTE recursion, unbounded include stack) are PANIC outcomes of the specification and unreachable in it (M). Every tape of the scanner model (398 422 quick / several million thorough) goes through the whole real build, every PASTE graph over 4 macros and every include graph of the C07 model through the real build in worker processes whose death or hang is bisected to one case; a seeded fuzz stream of 300 000 (quick) / 6 000 000 (thorough) cases (random bytes, directive words, mutated / truncated / spliced corpus files, include graphs on disk, missing / empty / directory roots) runs in isolated workers with per-case and per-worker time limits.",
+         "Trusts: Go's recover for in-process panics, process isolation for fatal errors; a panic that does not reproduce when its case is re-run alone is logged, not reported (one such event was seen once in 2 M cases during development and never again).",
+         "DESIGN.md 5/C01"),
+ "C08": ("TLC: Renderer || Scanner invariance model (MC_C08.tla) + explicit-closure model (MC_C08doc.tla); every rendering replayed on the real scanner; documents rebuilt in random layouts; corpus files rewritten with CRLF / CR / indentation",
+         "Two-line documents from 11 line templates under every per-line combination of indentation, separators, trailing blanks or comment, LF/CRLF/CR, preceding blank/#/### material, // vs /* */ and quoting: the scanner model must deliver the tokens of the canonical layout (M) and the real Next() the model's lexemes (G). Explicit-closure vs implicit form of every block-model document: same tree and catalog. Every block-model document in 6 seeded layouts: same catalog bytes / same error class on the moved line. Every single-file corpus document with CRLF, CR and uniform indentation: same verdict, catalog, error class and line.",
+         "Comments are only inserted between directives (not between a directive and its body, not after Description text). Errors worded by jsight-schema-core count as one class per message kind.",
+         "DESIGN.md 5/C08"),
+ "C18": ("TLC: Conc.tla (dependency buffer pools with the repository's mutex, sync.Once of a shared catalog), all interleavings of 3 goroutines, plus two negative configurations that TLC must reject; -race stress driver whose logged histories are validated by Trace_C18.tla",
+         "Every interleaving of 3 goroutines over Get/Write/Put/Copy of the pooled buffers (with the mutex) and over the Once-guarded lazy compilation satisfies Sequential, NoPartialContent and terminates; without the mutex, or with an unsynchronised fast path, TLC finds the counter-example (so the invariants are not vacuous). A stress driver built with -race runs rounds of 12 goroutines building / serialising different projects at once and 12 goroutines serialising one freshly built catalog at once; each call's digest must equal the digest of the call run alone (validated by Trace_C18.tla) and the race detector must stay silent.",
+         "Schedules cannot be forced without hooks inside the dependency: statistical (25 / 300 rounds x 2 sources). The race detector is the observer for memory-level races.",
+         "DESIGN.md 5/C18"),
+})
 NOT_YET = {}
 ALL = ["C%02d" % i for i in range(1, 20)]
 
@@ -102,7 +117,7 @@ def main():
     hooks = subprocess.run(["git", "-C", "/repo", "log", "--format=%H %s"], capture_output=True, text=True).stdout.splitlines()
     m = {
         "version": 1,
-        "setup_cmd": "cd /verif/harness && cp /repo/go.sum . && %s go build -tags verif -o /dev/null ./cmd/vh && for m in MC_C02 MC_C03 MC_C04 MC_C07 MC_C09 MC_C10 MC_C11 MC_C12 MC_C13 MC_C14 MC_C15 MC_C16 MC_C17 MC_C19; do (cd /verif/spec && tla-sany $m.tla >/dev/null) || exit 1; done" % GO,
+        "setup_cmd": "cd /verif/harness && cp /repo/go.sum . && %s go build -tags verif -o /dev/null ./cmd/vh && for m in MC_C02 MC_C03 MC_C04 MC_C07 MC_C08 MC_C08doc MC_C09 MC_C10 MC_C10cyc MC_C11 MC_C12 MC_C13 MC_C14 MC_C15 MC_C16 MC_C17 MC_C19 Conc Trace_C05 Trace_C11 Trace_C18; do (cd /verif/spec && tla-sany $m.tla >/dev/null) || exit 1; done" % GO,
         "hooks": {
             "guard": "verif",
             "enable": "go build -tags verif (the harness module /verif/harness replaces github.com/jsightapi/jsight-api-core with /repo)",
